@@ -64,6 +64,13 @@ def opsProcess (op : String) (j : Json) : Option (Except String Json) :=
   | "proc.itemsetsHeader" => some do
       let rows ← (← getArr j "rows").toList.mapM strList
       pure (Json.arr ((itemsetsHeader none rows).map jstr).toArray)
+  | "proc.cleanSheet" => some do
+      let rows ← (← getArr j "rows").toList.mapM fun r => do
+        let ps ← pairList r
+        pure (ps.map fun kv => (kv.1, Cell.str kv.2))
+      let out := cleanSheet (getBoolD j "strip" false) (getBoolD j "addRow" false) rows
+      pure (Json.arr (out.map fun r => Json.arr (r.map fun kv => Json.arr #[jstr kv.1,
+        match kv.2 with | .str s => jstr s | .int n => (n : Json)]).toArray).toArray)
   | _ => none
 
 end Pyxv.Process
